@@ -96,6 +96,12 @@ pub fn run(prop: &str, a: &Args, rep: &mut Report) {
     }
     handle(rep, std::mem::take(&mut batch));
 
+    // ---- C04, second clause: programs with eBPF-to-eBPF calls must be refused by Cranelift ----
+    #[cfg(feature = "std")]
+    if prop == "C04" {
+        refusal_clause(a, rep);
+    }
+
     // ---- long ----
     let mut rng = Rng::derive(a.seed, a.shard, 3);
     let mut li = 0u64;
@@ -118,6 +124,109 @@ pub fn run(prop: &str, a: &Args, rep: &mut Report) {
             rep.set("long_cells", format!("{}:{}", mix.long_lens[i], c.class));
             batch.push(pre_run(c, format!("long#{n}.{variant}"), 4_000_000));
             handle(rep, std::mem::take(&mut batch));
+        }
+    }
+}
+
+
+/// Programs containing a local call at various positions/displacements, with a counting helper
+/// registered under the displacement value (and under other ids): cranelift_compile must return
+/// Err; if it returns Ok, the program is executed and the helper log is the witness.
+#[cfg(feature = "std")]
+fn refusal_clause(a: &Args, rep: &mut Report) {
+    use crate::engines::{Kind, Vm};
+    use crate::isa::*;
+    use crate::sys::{self, CaseEnd};
+    use serde_json::json;
+    let mut rng = Rng::derive(a.seed, a.shard, 41);
+    let n = (((if a.tier == "quick" { 24_000.0 } else { 800_000.0 }) * a.scale) as u64 / a.nshards).max(16);
+    struct RC {
+        prog: Vec<u8>,
+        helper_ids: Vec<u32>,
+        disp: i32,
+    }
+    let mut cases: Vec<RC> = Vec::new();
+    for k in 0..n {
+        // [pre fillers] callx +d [mid fillers] exit ; callee at call+1+d: mov r0, 7; exit  (d may be negative)
+        let pre = rng.range(0, 6) as usize;
+        let mid = rng.range(0, 6) as usize;
+        let backward = k % 3 == 0;
+        let mut v: Vec<Insn> = Vec::new();
+        let callee_first = backward;
+        let mut callee_pc = 0usize;
+        if callee_first {
+            v.push(Insn::new(JA, 0, 0, 2, 0)); // jump over the callee
+            callee_pc = v.len();
+            v.push(Insn::new(MOV64_IMM, 0, 0, 0, 7));
+            v.push(Insn::new(EXIT, 0, 0, 0, 0));
+        }
+        for _ in 0..pre {
+            v.push(Insn::new(MOV64_IMM, rng.below(6) as u8, 0, 0, rng.range(0, 9) as i32));
+        }
+        let call_pc = v.len();
+        v.push(Insn::new(CALL, 0, 1, 0, 0)); // patched below
+        for _ in 0..mid {
+            v.push(Insn::new(ADD64_IMM, 0, 0, 0, 1));
+        }
+        v.push(Insn::new(EXIT, 0, 0, 0, 0));
+        if !callee_first {
+            callee_pc = v.len();
+            v.push(Insn::new(MOV64_IMM, 0, 0, 0, 7));
+            v.push(Insn::new(EXIT, 0, 0, 0, 0));
+        }
+        let d = callee_pc as i64 - (call_pc as i64 + 1);
+        v[call_pc].imm = d as i32;
+        // dead or live: sometimes the call sits in dead code
+        let mut helper_ids = vec![d as i32 as u32];
+        if rng.chance(1, 2) {
+            helper_ids.push(rng.below(8) as u32);
+        }
+        if rng.chance(1, 4) {
+            helper_ids.clear(); // nothing registered under the displacement
+        }
+        cases.push(RC { prog: encode_prog(&v), helper_ids, disp: d as i32 });
+    }
+    let ends = sys::run_batch(cases.len(), 120, 60, |i, out| {
+        let c = &cases[i];
+        crate::hlp::log_reset();
+        let r = sys::catch(|| -> Result<Option<u64>, String> {
+            let mut vm = Vm::new(Kind::NoData, Some(&c.prog), (0, 8))?;
+            for (j, id) in c.helper_ids.iter().enumerate() {
+                vm.register_helper(*id, crate::hlp::PLAIN[j % 8])?;
+            }
+            match vm.cl_compile() {
+                Err(_) => Ok(None),
+                Ok(()) => Ok(Some(vm.exec_cl((std::ptr::null_mut(), 0), (std::ptr::null_mut(), 0))?)),
+            }
+        });
+        match r {
+            Ok(Ok(None)) => out.push(0),
+            Ok(Ok(Some(v))) => {
+                out.push(1);
+                out.extend_from_slice(&v.to_le_bytes());
+                out.extend_from_slice(&(crate::hlp::log_total() as u64).to_le_bytes());
+            }
+            Ok(Err(_)) => out.push(2),
+            Err(_) => out.push(3),
+        }
+    });
+    for (c, e) in cases.iter().zip(ends.iter()) {
+        rep.case(Some(crate::util::fnv(&c.prog) ^ c.helper_ids.len() as u64));
+        rep.count("refusal_cases");
+        rep.set("local_call_displacements", format!("{}", c.disp));
+        let w = json!({"kind": "cranelift-refusal", "prog": crate::util::hex(&c.prog), "helpers_registered_under": c.helper_ids, "displacement": c.disp});
+        match e {
+            CaseEnd::Done(b) if b[0] == 0 => rep.count("refused_as_required"),
+            CaseEnd::Done(b) if b[0] == 1 => {
+                let v = u64::from_le_bytes(b[1..9].try_into().unwrap());
+                let calls = u64::from_le_bytes(b[9..17].try_into().unwrap());
+                rep.violation("C04:cranelift:local-call-compiled", format!("cranelift_compile accepted a program with an eBPF-to-eBPF call (displacement {}); running it returned {v:#x} and invoked registered helpers {calls} time(s)", c.disp), w);
+            }
+            CaseEnd::Done(b) if b[0] == 3 => rep.violation("C04:cranelift:local-call-panic", "compiling a program with a local call panicked".into(), w),
+            CaseEnd::Done(_) => rep.count("refusal_other_error"),
+            CaseEnd::Died(s, _) => rep.violation(&format!("C04:cranelift:local-call-signal-{}", sys::signame(*s)), "compiled local call crashed".into(), w),
+            CaseEnd::CpuTimeout => rep.violation("C04:cranelift:local-call-diverged", "diverged".into(), w),
+            CaseEnd::Inconclusive(s) => rep.inconclusive(s.clone()),
         }
     }
 }
